@@ -191,6 +191,12 @@ def schedules(ctx):
             kinds = ['uniform', 'normal', 'triangular', 'lognormal', 'binomial'] if program == 'GEOPHIRES' else \
                 ['uniform', 'normal', 'triangular', 'lognormal']
         st = mc.make_settings(rng, program, iters, failure=failure, kinds=kinds, n_inputs=5 if kinds else None)
+        if iters >= 100 and not failure:
+            # a triangular input whose mode sits exactly on one of its bounds (numpy accepts left <= mode <= right)
+            if program == G:
+                st = mc.with_input(st, 'Ambient Temperature', ('triangular', 10, 10, 25) if idx % 2 else ('triangular', 5, 25, 25))
+            else:
+                st = mc.with_input(st, 'Reservoir Thickness', ('triangular', 0.12, 0.3, 0.3) if idx % 2 else ('triangular', 0.12, 0.12, 0.3))
         delay = rng.choice([0.0, 0.004, 0.02])
         if iters >= 300 and w == 32 and program == H:
             delay = 0.03          # stress run: many fast iterations contending for the lock, long holds -> lock timeouts
